@@ -849,3 +849,119 @@ pub fn huge_keys_family() -> Vec<String> {
     }
     out
 }
+
+// ---------------------------------------------------------------------------------------------
+// families added after the fourteenth round (appended)
+
+/// FOR EACH over a list of lists binds the loop variable to each element itself (no copying into what the variable
+/// held), whatever ends the round; an outer variable of the same name is the same list afterwards
+pub fn for_each_list_of_lists_family() -> Vec<String> {
+    let mut out = vec![];
+    for ctl in ["", "CONTINUE\n", "BREAK\n"] {
+        for before in ["", "r <- [9]\nkeep <- r\n", "r <- 5\n"] {
+            for at in 1..4 {
+                out.push(format!("rows <- [[1, 1], [2, 2], [3, 3]]\nfirst <- rows[1]\n{before}n <- 0\nFOR EACH r IN rows {{\nn <- n + 1\nIF (n == {at}) {{\n{ctl}}}\nAPPEND(r, n * 10)\n}}\nDISPLAY(rows)\nDISPLAY(first)\nrows[2][1] <- \"w\"\nDISPLAY(rows)\nDISPLAY(r)\nDISPLAY(keep)\n"));
+                out.push(format!("rows <- [[1, 1], [2, 2], [3, 3]]\n{before}n <- 0\nFOR EACH r IN rows {{\nn <- n + 1\nIF (n >= {at}) {{\n{ctl}}}\n}}\nDISPLAY(rows)\nAPPEND(rows[1], \"x\")\nDISPLAY(rows)\nDISPLAY(r)\nDISPLAY(keep)\n"));
+            }
+        }
+    }
+    out
+}
+
+/// a list that contains itself and is held by others, its variable then assigned something else
+pub fn self_containing_rebind_family() -> Vec<String> {
+    let mut out = vec![];
+    for make in ["APPEND(a, a)", "INSERT(a, 1, a)", "a[1] <- a", "a <- [a, 2]"] {
+        for rebind in ["a <- 0", "a <- NULL", "a <- \"text\"", "a <- [7]", "a <- keep"] {
+            out.push(format!("a <- [1]\n{make}\nkeep <- a\nbox <- [a, 5]\nDISPLAY(LENGTH(keep))\n{rebind}\nDISPLAY(LENGTH(keep))\nDISPLAY(LENGTH(box[1]))\nDISPLAY(LENGTH(box))\nAPPEND(keep, 3)\nDISPLAY(LENGTH(box[1]))\n"));
+            out.push(format!("PROCEDURE drop(l) {{\nl <- 0\nRETURN 1\n}}\na <- [1]\n{make}\nDISPLAY(LENGTH(a))\nDISPLAY(drop(a))\nDISPLAY(LENGTH(a))\n"));
+        }
+    }
+    out
+}
+
+/// digit runs around the largest double (308 - 400 digits, with and without a fraction): a literal denotes the
+/// nearest double, infinity included
+pub fn huge_literal_family() -> Vec<String> {
+    let max = "179769313486231570814527423731704356798070567525844996598917476803157260780028538760589558632766878171540458953514382464234321326889464182768467546703537516986049910576551282076245490090389328944075868508455133942304583236903222948165808559332123348274797826204144723168738177180919299881250404026184124858368";
+    let half = "179769313486231580793728971405303415079934132710037826936173778980444968292764750946649017977587207096330286416692887910946555547851940402630657488671505820681908902000708383676273854845817711531764475730270069855571366959622842914819860834936475292719074168444365510704342711559699508093042880177904174497791";
+    let mut out = vec![];
+    let mut lits: Vec<String> = vec![max.to_string(), half.to_string(), format!("{half}.9"), format!("{}2", &half[..308]), format!("{max}.5"), format!("{max}0"), format!("0{max}"), format!("{max}.000")];
+    for n in [307usize, 308, 309, 310, 400, 1000] {
+        lits.push(format!("1{}", "0".repeat(n)));
+        lits.push("9".repeat(n));
+        lits.push(format!("{}.5", "9".repeat(n)));
+        lits.push(format!("0.{}1", "0".repeat(n)));
+    }
+    for l in lits {
+        out.push(format!("x <- {l}"));
+        out.push(format!("{l}"));
+        out.push(format!("x <- \"{l}\" // {l}\ny <- {l}\n"));
+    }
+    out
+}
+
+/// ill-typed operations whose operands print long texts with multi-byte characters at every offset (whatever a
+/// diagnostic does with operand texts - shorten, quote, align - it does it on character boundaries)
+pub fn long_operand_family() -> Vec<String> {
+    let mut out = vec![];
+    for pad in 0..6 {
+        for ch in ["é", "語", "😀"] {
+            for n in [12usize, 20, 40] {
+                let text = format!("{}{}", "a".repeat(pad), ch.repeat(n));
+                for stmt in ["r <- x - 1", "r <- x * 2", "r <- 1 / x", "r <- x < 1", "r <- [x] * 2", "r <- [x, x] - [x]", "r <- -x", "FOR EACH e IN 5 - x {\n}", "REPEAT x TIMES {\n}", "r <- x MOD x", "r <- NOT x - x"] {
+                    out.push(format!("x <- \"{text}\"\nDISPLAY(\"before\")\n{stmt}\nDISPLAY(\"after\")\n"));
+                }
+            }
+        }
+    }
+    out
+}
+
+/// an IMPORT statement that is executed several times (a loop, a procedure called twice): the module is loaded and
+/// its top level runs every time
+pub fn repeated_import_execution() -> Vec<(String, String)> {
+    let lib = "DISPLAY(\"module top-level\")\nEXPORT PROCEDURE f() {\nRETURN \"from the module\"\n}\n".to_string();
+    let mut out = vec![];
+    for imp in ["IMPORT MOD \"lib.ap\"", "IMPORT \"f\" FROM MOD \"lib.ap\"", "IMPORT [\"f\"] FROM MOD \"lib.ap\""] {
+        out.push((lib.clone(), format!("REPEAT 3 TIMES {{\n{imp}\nDISPLAY(f())\n}}\n")));
+        out.push((lib.clone(), format!("PROCEDURE load() {{\n{imp}\nRETURN f()\n}}\nDISPLAY(load())\nDISPLAY(load())\n")));
+        out.push((lib.clone(), format!("n <- 0\nREPEAT 2 TIMES {{\nn <- n + 1\n{imp}\nDISPLAY(f())\nPROCEDURE f() {{\nRETURN \"re-declared by main\"\n}}\nDISPLAY(f())\n}}\n")));
+        out.push((lib.clone(), format!("FOR EACH k IN [1, 2] {{\nIF (k == 2) {{\n{imp}\n}}\n{imp}\n}}\nDISPLAY(f())\n")));
+    }
+    out
+}
+
+/// FOR EACH over texts with line structure visits every code point (CR and LF each count)
+pub fn for_each_line_structure() -> Vec<String> {
+    let mut out = vec![];
+    for s in ["a\\r\\nb", "\\r\\n", "a\\r\\n", "\\r\\n\\r\\n", "a\\rb", "a\\nb", "\\n\\r", "a\\tb", "x\\r\\r\\ny", "\\r"] {
+        out.push(format!("IMPORT MOD \"STRING\"\ns <- \"{s}\"\nc <- TO_CHAR_ARRAY(s)\nn <- 0\nFOR EACH ch IN s {{\nn <- n + 1\nDISPLAY(ch == s[n])\nDISPLAY(ch == c[n])\nDISPLAY(LENGTH(ch))\n}}\nDISPLAY(n)\nDISPLAY(LENGTH(s))\nDISPLAY(LENGTH(c))\n"));
+    }
+    out
+}
+
+/// a map with more entries than any small table: every key is stored, found and listed
+pub fn big_map_family() -> Vec<String> {
+    let mut out = vec![];
+    for n in [100usize, 1023, 1024, 1025, 1100, 2050] {
+        out.push(format!("IMPORT MOD \"MAP\"\nm <- MAP()\nk <- 0\nbad <- 0\nREPEAT {n} TIMES {{\nk <- k + 1\nIF (NOT (MAP_INSERT(m, k, k * 2) == NULL)) {{\nbad <- bad + 1\n}}\n}}\nDISPLAY(bad)\nDISPLAY(LENGTH(MAP_KEYS(m, 0)))\nDISPLAY(MAP_GET(m, {n}))\nDISPLAY(MAP_GET(m, 1))\nDISPLAY(MAP_CONTAINS_KEY(m, {n} + 1))\nDISPLAY(MAP_INSERT(m, \"one more\", 1))\nDISPLAY(MAP_INSERT(m, 1, \"again\"))\nDISPLAY(LENGTH(MAP_VALUES(m, 0)))\n"));
+    }
+    out
+}
+
+/// drawings of the same pose before and after the grid changed elsewhere (a goal or a checkpoint taken, then back)
+pub fn robot_redraw_family() -> Vec<String> {
+    let mut out = vec![];
+    let back = "ROTATE_LEFT(r)\nROTATE_LEFT(r)\n";
+    for (grid, there, home) in [("e.x", 2, 2), ("ex", 1, 1), ("e11", 1, 1), ("e1x", 2, 2), ("e.1", 2, 2)] {
+        let go: String = "DISPLAY(MOVE_FORWARD(r))\n".repeat(there);
+        let ret: String = "DISPLAY(MOVE_FORWARD(r))\n".repeat(home);
+        for draw in ["FORMAT_ROBOT_ASCII", "FORMAT_ROBOT"] {
+            out.push(format!("IMPORT MOD \"ROBOT\"\nr <- ROBOT_MAP(\"{grid}\")\nDISPLAY({draw}(r))\n{go}{back}{ret}{back}DISPLAY({draw}(r))\nDISPLAY({draw}(r))\n"));
+            // first step taken before the first drawing (the pose of the first drawing is revisited with the same power)
+            out.push(format!("IMPORT MOD \"ROBOT\"\nr <- ROBOT_MAP(\"{grid}.\")\nDISPLAY(MOVE_FORWARD(r))\nDISPLAY({draw}(r))\nDISPLAY(MOVE_FORWARD(r))\n{back}DISPLAY(MOVE_FORWARD(r))\n{back}DISPLAY({draw}(r))\n"));
+        }
+    }
+    out
+}
